@@ -52,6 +52,14 @@ def apply_edit(root, e):
         p = os.path.join(root, ed["file"])
         with open(p) as f:
             s = f.read()
+        if ed.get("all"):
+            n = s.count(ed["old"])
+            s2 = s.replace(ed["old"], ed["new"])
+            if s2 == s:
+                return "edit changed nothing"
+            with open(p, "w") as f:
+                f.write(s2)
+            continue
         if ed.get("regex"):
             n = len(re.findall(ed["old"], s, flags=re.M | re.S))
             s2 = re.sub(ed["old"], ed["new"], s, count=1, flags=re.M | re.S)
